@@ -71,8 +71,11 @@ def gen_case(run_seed, tier):
         g, fam = graphs.path(sz.choice([3, 4, 4, 5, 6, 6, 8])), "canonical path"  # the labelling linear_partial_orbit is written for
     n = g[0]
     calls = []
+    edits = sz.random() < 0.35
     for _ in range(sz.randint(3, 7)):
         kind = wl.choices(["iso", "orbit", "rgs", "linear", "dfs", "relabel", "map", "maxedge", "maxnbr"], weights=[6, 6, 1, 1.5, 2.5, 1, 2, 1.2, 1.2])[0]
+        if edits and n <= 6 and wl.random() < 0.2:
+            kind = "edit"  # the caller edits its graph object between two calls (the library must not remember the old one)
         if fam == "canonical path" and wl.random() < 0.5:
             kind = "linear"  # the scripted walk is called several times in one run
         if n > 6 and kind in ("orbit", "dfs", "rgs", "maxedge", "maxnbr") or n > 8 and kind == "linear":
@@ -158,6 +161,23 @@ def run_case(case):
             nd0 = len(seam.draws)
             try:
                 with core.alarm(CALL_TIMEOUT_S, f"C16 {k}"):
+                    if k == "edit":
+                        # toggle one edge of the caller's graph object in place; the references follow
+                        if n < 3:
+                            continue
+                        r = random.Random(call[1])
+                        u, v = r.sample(range(n), 2)
+                        if G.has_edge(u, v):
+                            G.remove_edge(u, v)
+                        else:
+                            G.add_edge(u, v)
+                        edges = sorted((min(a, b), max(a, b)) for a, b in G.edges)
+                        A0 = gref.adj_from_edges(n, edges)
+                        orbit = gref.lc_orbit(A0) if n <= 7 else None
+                        prepared[which] = (n, edges, G, A0, orbit)
+                        ctx.probe("input_graph_object_edited_between_calls")
+                        ctx.log(step, "edit", u, v)
+                        continue
                     if k == "iso":
                         _, n_iso, thr, exh, thresh, label_map, seed, as_float = call[:8]
                         sort_emit = bool(call[8]) if len(call) > 8 else False
